@@ -16,6 +16,9 @@ pub struct FAttr {
 	pub oid: Vec<u64>,
 	pub kind: StrKind,
 	pub text: String,
+	/// content octets overriding the reference encoding of `text` (e.g. Latin-1 in a T61String)
+	#[serde(default)]
+	pub raw: Option<Hex>,
 }
 
 /// RDNSequence with possibly multi-valued RDNs.
@@ -24,7 +27,7 @@ pub struct FName(pub Vec<Vec<FAttr>>);
 
 impl FName {
 	pub fn from_dn(d: &DnSpec) -> FName {
-		FName(d.effective().into_iter().map(|(t, v)| vec![FAttr { oid: t.oid(), kind: v.kind, text: v.text }]).collect())
+		FName(d.effective().into_iter().map(|(t, v)| vec![FAttr { oid: t.oid(), kind: v.kind, text: v.text, raw: None }]).collect())
 	}
 	pub fn is_flat(&self) -> bool {
 		self.0.iter().all(|r| r.len() == 1)
@@ -40,7 +43,7 @@ impl FName {
 			.map(|rdn| {
 				let atvs: Vec<Vec<u8>> = rdn
 					.iter()
-					.map(|a| enc_seq(&[enc_oid(&a.oid), enc_tlv(a.kind.tag() as u8, &a.kind.encode(&a.text))]))
+					.map(|a| enc_seq(&[enc_oid(&a.oid), enc_tlv(a.kind.tag() as u8, &a.raw.as_ref().map(|r| r.0.clone()).unwrap_or_else(|| a.kind.encode(&a.text)))]))
 					.collect();
 				enc_set_of(&atvs)
 			})
